@@ -401,7 +401,7 @@ impl DynamicTickArrayLoader {
         proof { broadcast use crate::lebytes::le_roundtrip; let k = tick_offset as u128; assert((1u128 << tick_offset) == (1u128 << k)); assert(Self::TICK_BITMAP_OFFSET == 36); }
 //@ end
 /// reading slot k: the all-zero tick for tag 0, the 112 data bytes for tag 1 (C13: same answer as a fixed array holding the same ticks)
-//@ fn state/dynamic_tick_array.rs get_tick in=/^impl TickArrayType for DynamicTickArrayLoader \{/ -> r pub as=get_tick_bytes
+//@ fn state/dynamic_tick_array.rs get_tick in=/^impl TickArrayType for DynamicTickArrayLoader \{/ -> r pub as=get_tick_bytes canary
     requires self.wf(), tick_spacing > 0, -IDX_BOUND() <= tick_index <= IDX_BOUND(),
     ensures ({
         let ok = in_range_spec(tick_index as int, self.vstart(), tick_spacing as int, false) && tick_usable(tick_index as int, tick_spacing as int);
@@ -414,7 +414,7 @@ impl DynamicTickArrayLoader {
 //@ inject before /let byte_offset = /
         proof { lemma_slot_range(tick_index as int, self.vstart(), tick_spacing as int, false); assert(Self::TICK_DATA_OFFSET == 52); }
 //@ end
-//@ fn state/dynamic_tick_array.rs update_tick in=/^impl TickArrayType for DynamicTickArrayLoader \{/ -> r pub as=update_tick_bytes
+//@ fn state/dynamic_tick_array.rs update_tick in=/^impl TickArrayType for DynamicTickArrayLoader \{/ -> r pub as=update_tick_bytes canary
     requires old(self).wf(), tick_spacing > 0, -IDX_BOUND() <= tick_index <= IDX_BOUND(),
     ensures final(self).vstart() == old(self).vstart(), ({
         let ok = in_range_spec(tick_index as int, old(self).vstart(), tick_spacing as int, false) && tick_usable(tick_index as int, tick_spacing as int);
